@@ -179,7 +179,7 @@ def gen_requests(r, tier):
 class C07(Prop):
     id = "C07"
     lean_modules = ["Fan2go.Props.C07"]
-    fact_modules = ["Fan2go.Props.Trans", "Fan2go.Props.Trans2Interp", "Fan2go.Props.Trans2Evaluate", "Fan2go.Props.Trans2FindClosest"]
+    fact_modules = ["Fan2go.Props.Trans", "Fan2go.Props.Trans2Interp", "Fan2go.Props.Trans2Evaluate", "Fan2go.Props.Trans2FindClosest", "Fan2go.Props.Trans3Leaf"]
     rule = ("sweep: linear curves (min<max; non-decreasing step sets with integer, half-integer and one-decimal speeds) and "
             "sum/maximum/minimum/average function curves nested over them over one or two sensors, each raised along its own ascending grid of 1..100 "
             "m-degree spanning below-min to above-max; request: ascending curve values through the real controller with the "
